@@ -82,6 +82,17 @@ Example C08_keep_neg_scalar_nonvacuous :
     = Ok (Arr TNum [0]%nat []).
 Proof. vm_compute. split; reflexivity. Qed.
 
+(** rotate with more amounts than axes: unchanged when nothing is left, refused otherwise *)
+Theorem C08_rotate_extra_axes : forall a n s (zs : list Z), ash a = n :: s -> aty a <> TBox ->
+  (length (ash a) < length zs)%nat ->
+  p_rotate None (map AInt zs) a = if Nat.eqb (prodn (ash a)) 0 then Ok a else Err.
+Proof. exact rotate_extra_axes. Qed.
+Example C08_rotate_extra_axes_nonvacuous :
+  p_rotate None [AInt 1; AInt 1] (Arr TNum [0]%nat []) = Ok (Arr TNum [0]%nat []) /\
+  p_rotate None [AInt 1; AInt 1] (Arr TNum [3]%nat [ENum 1; ENum 2; ENum 3]) = Err /\
+  p_drop [AInt 3; AInt 1] (Arr TNum [3]%nat [ENum 1; ENum 2; ENum 3]) = Err.
+Proof. vm_compute. repeat split; reflexivity. Qed.
+
 (** non-vacuity: the premises are met by non-trivial arrays and the laws compute *)
 Example C08_nonvacuous :
   let a := Arr TNum [3; 2]%nat [ENum 5; ENum 1; ENum 2; ENum 2; ENum 5; ENum 1] in
@@ -137,3 +148,4 @@ Print Assumptions C08_classify_dedup.
 Print Assumptions C08_dedup_spec.
 Print Assumptions C08_match_spec.
 Print Assumptions C08_keep_neg_scalar.
+Print Assumptions C08_rotate_extra_axes.
